@@ -266,7 +266,7 @@ Record xopts := mkxopts {
   xo_op : xop; xo_perfect : bool; xo_trim : bool; xo_gray : bool;
   xo_crop : option cropspec; xo_slow : bool }.
 
-Inductive xerr := ENotPerfect | EBadCrop | ECropExt | ENoGray | EAlign | EQuantReuse.
+Inductive xerr := ENotPerfect | EBadCrop | ECropExt | ENoGray | EAlign | EQuantReuse | EUnknownSubsamp.
 
 Definition max_hs (cs : list comp) : Z := fold_right (fun c m => Z.max (c_hs c) m) 1 cs.
 Definition max_vs (cs : list comp) : Z := fold_right (fun c m => Z.max (c_vs c) m) 1 cs.
@@ -366,6 +366,45 @@ Definition exec_comp (op : xop) (slow : bool) (g : geom) (src : srcfn) : srcfn :
   | XRot270 => do_rot_270 g src
   end.
 
+(* ------------------------------------------------------- the loop nests *)
+(* The iteration space of the block-moving routines, padding included.  Workspace arrays are
+   padded to whole iMCUs; the routines run
+     for (dst_blk_y = 0; dst_blk_y < height_in_blocks; dst_blk_y += v_samp)
+       for (offset_y = 0; offset_y < v_samp; offset_y++)
+         row-wise routines (do_crop, do_flip_h, do_flip_v, do_rot_180):
+           for (dst_blk_x = 0; dst_blk_x < width_in_blocks; dst_blk_x++)
+         block-wise routines (do_transpose, do_rot_90, do_rot_270, do_transverse):
+           for (dst_blk_x = 0; dst_blk_x < width_in_blocks; dst_blk_x += h_samp)
+             for (offset_x = 0; offset_x < h_samp; offset_x++)
+   and write dst[dst_blk_y + offset_y][dst_blk_x (+ offset_x)]: rows up to the next multiple of
+   v_samp and (block-wise) columns up to the next multiple of h_samp are written too (edge strips
+   of padding blocks).  [nest] is the sequence of writes in execution order. *)
+Definition zseq (n : Z) : list Z := map Z.of_nat (seq 0 (Z.to_nat n)).
+
+Definition nest (rowwise : bool) (g : geom) (f : srcfn) : list ((Z * Z) * blk) :=
+  flat_map (fun gy =>
+    flat_map (fun oy =>
+      let y := gy * g_vs g + oy in
+      if rowwise then map (fun x => ((x, y), f x y)) (zseq (g_wb g))
+      else flat_map (fun gx => map (fun ox => let x := gx * g_hs g + ox in ((x, y), f x y)) (zseq (g_hs g)))
+                    (zseq ((g_wb g + g_hs g - 1) / g_hs g)))
+      (zseq (g_vs g)))
+    (zseq ((g_hb g + g_vs g - 1) / g_vs g)).
+
+(* content of the destination array after the writes (a later write wins) *)
+Fixpoint find_last (k : Z * Z) (ws : list ((Z * Z) * blk)) : option blk :=
+  match ws with
+  | [] => None
+  | (k', v) :: r =>
+      match find_last k r with
+      | Some v' => Some v'
+      | None => if (fst k =? fst k') && (snd k =? snd k') then Some v else None
+      end
+  end.
+
+Definition exec_nest (op : xop) (slow : bool) (g : geom) (src : srcfn) : Z -> Z -> option blk :=
+  fun x y => find_last (x, y) (nest (negb (transposes op)) g (exec_comp op slow g src)).
+
 Definition cdiv (a b : Z) : Z := (a + b - 1) / b.      (* jdiv_round_up *)
 
 (* destination sampling factors: jtransform_adjust_parameters (1x1 for a single
@@ -423,15 +462,66 @@ Definition tj_xopts (n : nat) (t : tjx) : xopts :=
            else None)
           (negb (Nat.eqb n 1) && is_hflip (t_op t)).
 
-(* first loop of tj3Transform: jtransform_request_workspace, then the
-   alignment test on r.x / r.y (tjMCUWidth/Height of the destination
-   subsampling = destination iMCU size for the seven TJSAMP layouts) *)
+(* TJSAMP_444, 422, 420, GRAY, 440, 411, 441 = 0..6, TJSAMP_UNKNOWN = -1; tjMCUWidth / tjMCUHeight *)
+Definition tj_samp_mcu : list (Z * Z) := [(8, 8); (16, 8); (16, 16); (8, 8); (8, 16); (32, 8); (8, 32)].
+Definition tj_mcu_w (s : Z) : Z := fst (nth (Z.to_nat s) tj_samp_mcu (0, 0)).
+Definition tj_mcu_h (s : Z) : Z := snd (nth (Z.to_nat s) tj_samp_mcu (0, 0)).
+
+Definition fac_is (c : Z * Z) (h v : Z) : bool := (fst c =? h) && (snd c =? v).
+
+(* turbojpeg.c getSubsamp(): the TJSAMP level of the source, statement by statement, as a function
+   of jpeg_color_space and the (h_samp_factor, v_samp_factor) list.
+   [four] = CMYK/YCCK with four components (the fourth must have the luminance factors). *)
+Definition get_subsamp_l (jcs : Z) (cs : list (Z * Z)) : Z :=
+  let nc := length cs in
+  if Nat.eqb nc 1 && (jcs =? 1) then 3 else
+  let four := ((jcs =? 5) || (jcs =? 4)) && Nat.eqb nc 4 in
+  if negb (Nat.eqb nc 3 || four) then -1 else
+  match cs with
+  | [] => -1
+  | c0 :: rest =>
+      (* for (i = 0; i < TJ_NUMSAMP; i++) { if (i == TJSAMP_GRAY) continue; ... } *)
+      let step (st : Z * bool) (i : Z) : Z * bool :=
+        let '(ret, stop) := st in
+        if stop then st else
+        let mw := tj_mcu_w i / 8 in let mh := tj_mcu_h i / 8 in
+        (* others(k) match (href, vref), the K component of CMYK/YCCK matches (kh, kv) *)
+        let others (href vref kh kv : Z) : bool :=
+          forallb (fun kc => let '(k, c) := kc in
+                             if four && Nat.eqb k 3 then fac_is c kh kv else fac_is c href vref)
+                  (combine (seq 1 (length rest)) rest) in
+        if fac_is c0 mw mh && others 1 1 mw mh then (i, true) else
+        if fac_is c0 2 2 && ((i =? 1) || (i =? 4)) && others mh mw 2 2 then (i, true) else
+        if (fst c0 * snd c0 <=? 10 / 3) && (i =? 0) &&
+           forallb (fun c => fac_is c (fst c0) (snd c0)) rest
+        then (i, false) else st in
+      fst (fold_left step [0; 1; 2; 4; 5; 6] (-1, false))
+  end.
+
+Definition get_subsamp (im : image) : Z :=
+  get_subsamp_l (i_cs im) (map (fun c => (c_hs c, c_vs c)) (i_comps im)).
+
+(* getDstSubsamp() *)
+Definition get_dst_subsamp (src : Z) (gray : bool) (op : xop) : Z :=
+  let d := if gray then 3 else src in
+  if transposes op then
+    if d =? 1 then 4 else if d =? 4 then 1 else if d =? 5 then 6 else if d =? 6 then 5 else d
+  else d.
+
+(* first loop of tj3Transform: jtransform_request_workspace, then, for a crop, the destination
+   subsampling level must be known and r.x / r.y must be multiples of the iMCU size that
+   jtransform_request_workspace computed (xinfo[i].iMCU_sample_width / height; since fix 7d69fcb --
+   before, tjMCUWidth/Height of the level were used, wrong for non-standard layouts) *)
 Definition tj_precheck (im : image) (n : nat) (t : tjx) : option xerr :=
   match request_workspace im (tj_xopts n t) with
   | inl e => Some e
   | inr p =>
-      if t_crop t && (negb (t_x t mod p_imw p =? 0) || negb (t_y t mod p_imh p =? 0))
-      then Some EAlign else None
+      if t_crop t then
+        let d := get_dst_subsamp (get_subsamp im) (t_gray t) (t_op t) in
+        if d =? -1 then Some EUnknownSubsamp else
+        if negb (t_x t mod p_imw p =? 0) || negb (t_y t mod p_imh p =? 0)
+        then Some EAlign else None
+      else None
   end.
 
 Fixpoint first_err {A} (f : A -> option xerr) (l : list A) : option xerr :=
